@@ -882,7 +882,7 @@ JBIG2_TRACE_SPEC = os.path.join(SPECS, "image", "JBIG2Trace.tla")
 JB_DEVS = ["RefWidth4", "Retain7Bits", "LongCountDropped", "PageAssocShort", "ZeroLenNoData", "GlobalsRstrip", "GlobalsRequired"]
 JBIG2_CONFIGS = {
     "quick": [("refs", "NoGlobals", "RefLists", "DirectModes"), ("single", "NoGlobals", "SingleListsQuick", "DirectModes"),
-              ("pages", "NoGlobals", "PageListsQuick", "WriteFileMode"), ("export", "GlobalChoices", "ExportLists", "ExportMode")],
+              ("export", "GlobalChoices", "ExportLists", "ExportMode")],
     "thorough": [("refs", "NoGlobals", "RefLists", "DirectModes"), ("single", "NoGlobals", "SingleLists", "DirectModes"),
                  ("pages", "NoGlobals", "PageLists", "WriteFileMode"), ("export", "GlobalChoices", "ExportLists", "ExportMode"),
                  ("export-pages", "GlobalOne", "PageListsQuick", "ExportMode")],
